@@ -12,8 +12,13 @@ stdout: last line JSON {"tables": [[str per frame]], "bridge_probe":[int], "e2e"
 
 Synthetic H-bond tables go through the shim (mdtraj's dssp() with kabsch_sander replaced, see the
 header of dssp_shim.cpp).  End-to-end cases go through md.compute_dssp / md.kabsch_sander only; what is
-returned besides mdtraj's answers is computed here from the topology and CA coordinates by
-independent code: residues lacking N/CA/C/O, chain index per residue, kappa > 70 degrees.
+returned besides mdtraj's answers is a description of the object as it is: residue and atom names, chain
+index per residue, the CA coordinates of every frame as exact integers ("ca": float32 values in a common
+power-of-two unit; the model decides kappa > 70 degrees on them).  "skip" and "geom" (float64 kappa flags with
+a 2e-3 rad guard) are the older, independently computed facts; the check no longer uses them.
+"aim_kappa": [[r, delta_deg], ...] rotates the CA of residue r+2 about the CA of r so that kappa(r) = 70 + delta degrees.
+"rename_residues": [[r, name], ...] renames residues in memory before the first call.
+"collapse_ca": [r, ...] puts the CA of residue r+2 exactly on the CA of residue r in every frame.
 """
 import ctypes
 import json
@@ -148,12 +153,21 @@ def kappa_flags(ca_xyz, have):
         v = ca_xyz[i] - ca_xyz[i + 2]
         nu, nv = np.linalg.norm(u), np.linalg.norm(v)
         if nu < 1e-6 or nv < 1e-6:
-            out[i] = None
+            out[i] = 1 if (nu == 0 or nv == 0) else None      # 0/0 -> NaN -> CLIP gives -1 -> kappa = pi: a bend
             continue
         c = float(np.dot(u, v) / (nu * nv))
         k = np.arccos(max(-1.0, min(1.0, c)))
         out[i] = None if abs(k - thr) < 2e-3 else int(k > thr)
     return out
+
+
+def exact_ints(rows):
+    """rows: list of None | three float32 -> the same numbers as integers in a common power-of-two unit (every float32 is a
+    dyadic rational; the bend test does not depend on the unit)"""
+    from fractions import Fraction
+    fr = [[Fraction(float(c)) for c in r] if r is not None else None for r in rows]
+    D = max([c.denominator for r in fr if r is not None for c in r] + [1])
+    return [[int(c * D) for c in r] if r is not None else None for r in fr]
 
 
 def run_e2e(cases, repo):
@@ -186,6 +200,35 @@ def run_e2e(cases, repo):
             big[f + 1] = t0.xyz[0] + rng.normal(0.0, 1.0, size=(n_atoms, 3)).astype(np.float32) * scale
         traj = md.Trajectory(big[1:], t0.topology)
         top = traj.topology
+        if c.get("aim_kappa"):
+            # CA of residue r+2 rotated about CA of r so that kappa(r) = 70 degrees + delta (a few 1/1000 .. 1/10 degree):
+            # probes the bend threshold right outside the guard band; the model sees the float32 result exactly
+            ca0 = [next((a.index for a in r.atoms if a.name == "CA"), None) for r in top.residues]
+            for r, delta in c["aim_kappa"]:
+                if r < 2 or r + 2 >= len(ca0) or None in (ca0[r - 2], ca0[r], ca0[r + 2]):
+                    continue
+                for f in range(1, F + 1):
+                    p_, t_, n_ = (np.asarray(big[f, ca0[k]], dtype=np.float64) for k in (r - 2, r, r + 2))
+                    d1, d2 = t_ - p_, n_ - t_
+                    l1, l2 = np.linalg.norm(d1), np.linalg.norm(d2)
+                    if l1 < 1e-3 or l2 < 1e-3:
+                        continue
+                    e1 = d1 / l1
+                    w = d2 - np.dot(d2, e1) * e1
+                    if np.linalg.norm(w) < 1e-6:
+                        w = np.cross(e1, [1.0, 0.0, 0.0] if abs(e1[0]) < 0.9 else [0.0, 1.0, 0.0])
+                    e2 = w / np.linalg.norm(w)
+                    th = np.radians(70.0 + delta)
+                    big[f, ca0[r + 2]] = (t_ + l2 * (np.cos(th) * e1 + np.sin(th) * e2)).astype(np.float32)
+        for r, nm in c.get("rename_residues", []):
+            if r < top.n_residues:
+                top.residue(r).name = nm
+        if c.get("collapse_ca"):
+            # CA of residue r+2 put exactly on CA of residue r (coinciding atoms: the kappa of r and r+2 is 0/0)
+            ca0 = [next((a.index for a in r.atoms if a.name == "CA"), None) for r in top.residues]
+            for r in c["collapse_ca"]:
+                if r + 2 < len(ca0) and ca0[r] is not None and ca0[r + 2] is not None:
+                    big[1:, ca0[r + 2]] = big[1:, ca0[r]]
 
         def observe():
             """mdtraj's answers for the object as it is now + the facts recomputed independently from the current names"""
@@ -206,9 +249,11 @@ def run_e2e(cases, repo):
                 xyz = np.asarray(traj.xyz[f], dtype=np.float64)
                 ca = np.array([xyz[i] if i is not None else [np.nan] * 3 for i in ca_idx])
                 geom = kappa_flags(ca, [i is not None for i in ca_idx])
-                frames.append({"hb": hb, "geom": geom, "full": [str(x) for x in full[f]],
+                ca_exact = exact_ints([traj.xyz[f][i] if i is not None else None for i in ca_idx])
+                frames.append({"hb": hb, "geom": geom, "ca": ca_exact, "full": [str(x) for x in full[f]],
                                "simp": [str(x) for x in simp[f]]})
             return {"n": n, "skip": skip, "chain": chain, "frames": frames,
+                    "names": [[r.name, nm] for r, nm in zip(top.residues, names)],
                     "shape_full": list(full.shape), "shape_simp": list(simp.shape)}
 
         if c.get("history"):
